@@ -422,7 +422,7 @@ def from_grammar_order(repo, res, rule="MPT"):
             continue
         c = cs[0]
         par = pm.get(id(c))
-        is_try = par is not None and par[0]["k"] == "Try"
+        is_try = A.propagates(c, pm)
         gs = A.guards_of(c, pm)
         order[name] = c
         res.check(is_try and not gs, rule, f"{rule}:{fq}:{name}", f"{name}(..)? on every path" if is_try and not gs else f"try={is_try} guards={[g[0]['k'] for g in gs]}", f"{fn.file}:{c['l']}")
